@@ -3,13 +3,13 @@ from . import p_echsd
 
 RULE = ("random histories on echsd.c (virtual-time loop): add / replace / cancel requests from 4 known users and an unknown "
         "peer over a small pool of UIDs (so that replacing, cancelling and foreign access happen constantly), X-ECHS-OWNER "
-        "fields naming the peer or someone else, interleaved with clock advances, child exits and table dumps; root and "
+        "fields naming the peer or someone else, interleaved with clock advances, child exits, table dumps and GET [/u/<uid>]/sched[?tuid=] requests from every user and root (own uid, another uid, bit-supersets such as 1023/2047, none); root and "
         "per-user daemons; the reference is the abstract map UID -> (owner, task): one reply per instruction, 2.0 iff the "
         "map changed as requested, no effect on other users' entries.")
 
 
 def run(ctx):
-    p_echsd.run_checks(ctx, "C11", {"steps": 24, "nusers": 4, "p_cancel": 0.35, "chk": False}, 500, 6000, RULE,
+    p_echsd.run_checks(ctx, "C11", {"steps": 26, "nusers": 4, "p_cancel": 0.35, "chk": False, "http": True}, 500, 6000, RULE,
                        me_choices=(0, 0, 0, 1001))
 
 
